@@ -88,3 +88,242 @@ pub fn cis_of(ws: &[u32]) -> Result<Vec<u8>, String> {
 pub fn perms5() -> Vec<[u8; 5]> {
     (0..120).map(crate::engine::perm_from_index::<5>).collect()
 }
+
+// ---------------------------------------------------------------------------------------------
+// disturbance menu: a tour of the crate's public API with benign and hostile inputs. Used between
+// the calls of a property's own sequence checks: state written by one public function and read by
+// another (a shared scratch buffer, a lazily built table, a sticky flag) shows up as a check that
+// fails only after a particular disturbance.
+
+use ckc_rs::cards::binary_card::{BinaryCard, BC64};
+use ckc_rs::cards::four::Four;
+use ckc_rs::cards::three::Three;
+use ckc_rs::cards::two::Two;
+use ckc_rs::cards::{HandValidator, Permutator};
+use ckc_rs::hand_rank::HandRank;
+use ckc_rs::{CKCNumber, CardNumber, CardRank, CardSuit, PokerCard, Shifty};
+use std::hint::black_box as bb;
+
+fn d_words() -> [[u32; 7]; 6] {
+    let d = card::DECK;
+    [
+        [d[0], d[1], d[2], d[3], d[4], d[51], d[37]],                        // royal flush + 2
+        [d[12], d[25], d[38], d[51], d[11], d[24], d[37]],                   // four deuces, treys
+        [d[0], 0, d[14], 0, d[28], d[42], 0],                                // blanks
+        [d[5], d[5], d[5], d[6], d[7], d[8], d[9]],                          // repeats
+        [d[0] | card::QUADS, u32::MAX, 1, d[3] ^ 1, d[4] & !0xF000, 0x8000_0000, d[51] | card::PAIR], // hostile words
+        [d[51], d[50], d[49], d[48], d[39], d[26], d[13]],                   // low cards / wheel-ish
+    ]
+}
+
+pub fn disturbance_menu() -> Vec<(&'static str, fn())> {
+    fn guarded(f: impl FnOnce()) {
+        // a disturbance may legitimately panic on hostile words (unvalidated ranking of arbitrary
+        // words is outside every property's domain): swallow it
+        let _ = guard(f);
+    }
+    vec![
+        ("rank fives (valid, blank, repeated)", || {
+            for w in d_words().iter().take(4) {
+                let a = [w[0], w[1], w[2], w[3], w[4]];
+                guarded(|| {
+                    let f = Five::from(a);
+                    bb((f.hand_rank_value(), f.hand_rank_value_validated(), f.hand_rank(), f.hand_rank_validated(), f.hand_rank_value_and_hand(), ckc_rs::evaluate::five_cards(a)));
+                });
+            }
+        }),
+        ("rank sixes and sevens (valid, blank, repeated)", || {
+            for w in d_words().iter().take(4) {
+                guarded(|| {
+                    let s = Six::from([w[0], w[1], w[2], w[3], w[4], w[5]]);
+                    bb((s.hand_rank_value(), s.hand_rank_value_validated(), s.hand_rank_value_and_hand()));
+                    let s = Seven::from(*w);
+                    bb((s.hand_rank_value(), s.hand_rank_value_validated(), s.hand_rank_value_and_hand(), s.hand_rank()));
+                });
+            }
+        }),
+        ("validated ranking of hostile words", || {
+            let w = d_words()[4];
+            guarded(|| {
+                bb((Five::from([w[0], w[1], w[2], w[3], w[4]]).hand_rank_value_validated(), Six::from([w[0], w[1], w[2], w[3], w[4], w[5]]).hand_rank_value_validated(), Seven::from(w).hand_rank_value_validated()));
+            });
+        }),
+        ("validators on every size", || {
+            for w in d_words() {
+                guarded(|| {
+                    bb((Two::from([w[0], w[1]]).is_valid(), Three::from([w[0], w[1], w[2]]).is_valid(), Four::from([w[0], w[1], w[2], w[3]]).is_valid()));
+                    bb((Five::from([w[0], w[1], w[2], w[3], w[4]]).is_valid(), Six::from([w[0], w[1], w[2], w[3], w[4], w[5]]).is_corrupt(), Seven::from(w).are_unique(), Seven::from(w).contain_blank()));
+                });
+            }
+        }),
+        ("sort every size", || {
+            for w in d_words() {
+                guarded(|| {
+                    bb((Two::from([w[0], w[1]]).sort(), Three::from([w[0], w[1], w[2]]).sort(), Four::from([w[0], w[1], w[2], w[3]]).sort(), Five::from([w[0], w[1], w[2], w[3], w[4]]).sort(), Six::from([w[0], w[1], w[2], w[3], w[4], w[5]]).sort()));
+                    let mut s = Seven::from(w);
+                    s.sort_in_place();
+                    bb(s);
+                });
+            }
+        }),
+        ("setters and selection", || {
+            guarded(|| {
+                let w = d_words()[0];
+                let mut s = Seven::from(w);
+                s.set_first(w[6]);
+                s.set_seventh(0);
+                s.set_forth(u32::MAX);
+                bb((s.to_arr(), s.five_from_permutation([0, 2, 4, 5, 6]), Six::from([w[0], w[1], w[2], w[3], w[4], w[5]]).five_from_permutation([5, 4, 3, 2, 1])));
+                let mut f = Five::from([w[0], w[1], w[2], w[3], w[4]]);
+                f.set_third(w[5] | card::TRIPS);
+                f.set_fifth(0);
+                bb(f.to_arr());
+            });
+        }),
+        ("shift suits", || {
+            for w in d_words() {
+                guarded(|| {
+                    bb((w[0].shift_suit(), Two::from([w[0], w[1]]).shift_suit(), Five::from([w[0], w[1], w[2], w[3], w[4]]).shift_suit(), Seven::from(w).shift_suit()));
+                });
+            }
+        }),
+        ("predicates and product search", || {
+            for w in d_words().iter().take(4) {
+                guarded(|| {
+                    let f = Five::from([w[0], w[1], w[2], w[3], w[4]]);
+                    #[allow(deprecated)]
+                    bb((f.is_flush(), f.is_straight(), f.is_straight_flush(), f.is_wheel(), f.or_rank_bits(), f.and_bits(), f.multiply_primes(), ckc_rs::evaluate::is_flush(f.to_arr()), ckc_rs::evaluate::or_rank_bits(f.to_arr())));
+                });
+            }
+            for k in [0usize, 47, 48, 104_553_157, usize::MAX] {
+                guarded(|| {
+                    bb(Five::find_in_products(k));
+                });
+            }
+        }),
+        ("card construction, filter, accessors, flags", || {
+            guarded(|| {
+                bb((CKCNumber::create(CardRank::ACE, CardSuit::SPADES), CKCNumber::create(CardRank::TWO, CardSuit::CLUBS), CKCNumber::create(CardRank::BLANK, CardSuit::HEARTS), CKCNumber::create(CardRank::KING, CardSuit::BLANK)));
+                for w in d_words()[4] {
+                    bb((CardNumber::filter(w), w.get_card_rank(), w.get_card_suit(), w.get_rank_prime(), w.get_suit_bit(), w.get_rank_char(), w.get_suit_char(), w.get_chen_points(), w.flag_as_pair(), w.flag_as_quads().strip_multiples_flags()));
+                }
+            });
+        }),
+        ("hand rank conversion and comparison", || {
+            guarded(|| {
+                let r: Vec<HandRank> = [0u16, 1, 10, 11, 166, 1599, 1600, 7462, 7463, 8193, 16385, 65535].iter().map(|v| HandRank::from(*v)).collect();
+                for a in &r {
+                    for b in &r {
+                        bb((a.cmp(b), a == b, a.is_invalid(), a.is_a_valid_hand_rank()));
+                    }
+                }
+                bb(HandRank::default());
+            });
+        }),
+        ("chen scores", || {
+            guarded(|| {
+                let d = card::DECK;
+                for (a, b) in [(d[0], d[13]), (d[3], d[8]), (d[0], d[1]), (d[16], d[5]), (d[51], d[45]), (d[9], d[20])] {
+                    let t = Two::new(a, b);
+                    bb((t.chen_formula(), t.get_gap(), t.high_card(), t.is_suited_connector(), t.is_pocket_pair()));
+                }
+            });
+        }),
+        ("bit-set conversions and set operations", || {
+            guarded(|| {
+                for w in d_words()[4].iter().chain(d_words()[0].iter()) {
+                    bb(BinaryCard::from_ckc(*w));
+                }
+                for x in [0u64, 1, 1 << 51, 1 << 52, 3, (1 << 52) - 1, u64::MAX, 0x8000000000001] {
+                    let mut s = x;
+                    bb((CKCNumber::from_binary_card(x), x.number_of_cards(), BC64::is_valid(&x), x.has(1), x.fold_in(6), s.peel(), s.peel(), Two::try_from(x).is_ok()));
+                }
+                let w = d_words()[3];
+                bb((BinaryCard::from_seven(Seven::from(w)), BinaryCard::from_two(Two::from([w[0], w[1]])), BinaryCard::from_index("AS KS zz 2c")));
+            });
+        }),
+        ("deck access", || {
+            guarded(|| {
+                for i in [0usize, 51, 52, 63, 64, 4096, 1 << 32, usize::MAX] {
+                    bb(Deck::get(i));
+                }
+                bb(ckc_rs::deck::POKER_DECK.arr());
+            });
+        }),
+        ("text parsing", || {
+            guarded(|| {
+                for t in ["AS", "2c", "0♡", "K", "", "♠A", "\u{212A}S", "xx", "AS KS QS JS TS 9S 8S", "AS\u{b}KS", "  ah\tkd "] {
+                    bb((CKCNumber::from_index(t), ckc_rs::parse::get_rank_and_suit(t), ckc_rs::parse::five_from_index(t), BinaryCard::from_index(t)));
+                }
+                bb((Two::try_from("AS KS").is_ok(), Five::try_from("AS KS QS JS").is_ok(), Seven::try_from("AS KS QS JS TS 9S 8S").is_ok(), Three::try_from("2c 3c").is_ok(), Four::try_from("2c 3c 4c 5c").is_ok(), Six::try_from("").is_ok()));
+                bb((CardRank::from_char('k'), CardSuit::from_char('♧'), CardRank::from_char('\u{212A}')));
+            });
+        }),
+    ]
+}
+
+use ckc_rs::deck::Deck;
+
+/// For every disturbance d and every item b: run d, then the full check on b (one thread).
+/// Returns (disturbance name, item index, message) for the first failure.
+pub fn after_disturbances<T>(items: &[T], check: &dyn Fn(&T) -> Result<(), String>) -> Option<(&'static str, usize, String)> {
+    let menu = disturbance_menu();
+    for (name, d) in &menu {
+        for (i, b) in items.iter().enumerate() {
+            d();
+            match guard(|| check(b)) {
+                Ok(Ok(())) => {}
+                Ok(Err(m)) => return Some((name, i, m)),
+                Err(p) => return Some((name, i, format!("panicked: {}", p))),
+            }
+        }
+    }
+    None
+}
+
+/// run the named disturbance (replay)
+pub fn run_disturbance(name: &str) {
+    for (n, d) in disturbance_menu() {
+        if n == name {
+            d();
+        }
+    }
+}
+
+use crate::engine::{PResult, Run};
+
+/// Property-level wrapper of `after_disturbances`: records the generator and reports a failure as
+/// `<ID>.after_disturbance` with a replayable case {disturbance, clause, case}.
+pub fn disturbance_pass<T>(
+    run: &mut Run,
+    items: &[T],
+    check: &dyn Fn(&T) -> Result<(), String>,
+    to_case: &dyn Fn(&T) -> (String, Value, String),
+) -> PResult {
+    if run.is_twin() {
+        return Ok(());
+    }
+    let menu_len = disturbance_menu().len() as u64;
+    let n = items.len() as u64 * menu_len;
+    let hit = after_disturbances(items, check);
+    run.generator(
+        "each item checked right after each API disturbance",
+        "exhaustive over (disturbance, item) (histories across functions)",
+        Some(n),
+        n,
+        n,
+        "14 disturbances touring the public API (ranking, validation, sorting, setters, shifting, predicates, construction, rank conversion, Chen, bit-sets, deck, parsing) with benign and hostile inputs; then the property's own oracle on the item",
+    );
+    if let Some((name, i, m)) = hit {
+        let (clause, case, sig) = to_case(&items[i]);
+        let id = run.id.clone();
+        return run.violation(&format!("{}.after_disturbance", id), &format!("{} ; {}", name, sig), json!({"disturbance": name, "clause": clause, "case": case}), &format!("right after the calls of the disturbance '{}': {}", name, m));
+    }
+    Ok(())
+}
+
+/// replay of an `<ID>.after_disturbance` case
+pub fn replay_after_disturbance(case: &Value, check_case: fn(&str, &Value) -> Result<(), String>) -> Result<(), String> {
+    run_disturbance(case["disturbance"].as_str().unwrap_or(""));
+    check_case(case["clause"].as_str().unwrap_or(""), &case["case"])
+}
